@@ -207,6 +207,30 @@ func (e *Engine) runStructCheck(c *StructCheck) structResult {
 			return structResult{name, true, fmt.Sprintf("writers of %s are exactly %v", parts[0], g)}
 		}
 		return structResult{name, false, fmt.Sprintf("writers of %s are %v, contract says %v", strings.TrimSpace(parts[0]), g, want)}
+	case "writers_global":
+		parts := strings.SplitN(rest, "=", 2)
+		if len(parts) != 2 {
+			return structResult{name, false, "bad syntax"}
+		}
+		gname := strings.TrimSpace(parts[0])
+		want := parseSet(parts[1])
+		got := map[string]bool{}
+		for _, fn := range fns {
+			for _, b := range fn.Blocks {
+				for _, in := range b.Instrs {
+					if st, ok := in.(*ssa.Store); ok {
+						if g, ok := st.Addr.(*ssa.Global); ok && g.Name() == gname && g.Pkg != nil && g.Pkg.Pkg.Path() == c.Pkg {
+							got[relName(fn)] = true
+						}
+					}
+				}
+			}
+		}
+		g := setString(got)
+		if strings.Join(g, ",") == strings.Join(want, ",") {
+			return structResult{name, true, fmt.Sprintf("package variable %s is assigned only in %v", gname, g)}
+		}
+		return structResult{name, false, fmt.Sprintf("package variable %s is assigned in %v, contract says %v", gname, g, want)}
 	case "callers":
 		parts := strings.SplitN(rest, "=", 2)
 		if len(parts) != 2 {
